@@ -24,6 +24,7 @@ def tex_store_scaled(fw, ds):
 
 
 PROP = {
+    "level_text": "Only FixWord::to_scaled = TeX's store_scaled is decided (every fix_word, each design size of a stated list). fix_word print/parse, compress and next-larger chains are NOT decided.",
     "title": "Font-metric arithmetic: fix_word text, scaling, compression match TeX",
     "explanation": "FixWord::to_scaled is executed from MIR (loop unrolled, to_be_bytes modelled) against TeX's store_scaled for every legal (value, design size) pair.",
     "outside": [
